@@ -275,6 +275,31 @@ def rule_b(ctx):
                     else:
                         rep.ok('C07.b', c2, en2.func,
                                'stream stays registered in state %s; a later ERROR produces no signal' % _st(post))
+                # ... and whatever else can still happen to the registered handler - a frame of any type, a signal of
+                # its local publisher, a call of the application - reaches the subscriber no more
+                again = None
+                for en2 in entries:
+                    if (en2.kind == 'frame' and en2.frame_cls.name == 'ErrorFrame') or \
+                            (en2.kind == 'method' and en2.func.name in ('dispose', 'subscribe')):
+                        continue
+                    if en2.kind == 'frame' and en2.frame_cls.name in (
+                            'RequestChannelFrame', 'RequestStreamFrame', 'RequestResponseFrame',
+                            'RequestFireAndForgetFrame'):
+                        continue  # the frame that created the handler: a second one for a live id is rejected (C13.d)
+                    if en2.kind == 'method' and not en2.is_event:
+                        continue  # a private step of another entry, covered where it is called
+                    for p2 in m.run(en2, post):
+                        later = [s for s in m.signals(p2) if s[0] != 'subscribe']
+                        if later and again is None:
+                            again = (en2, later[0][1].line)
+                c3 = '%s / nothing signals the subscriber after it' % en.name
+                if again is not None:
+                    rep.bad('C07.b', c3, again[0].func,
+                            'after the terminal signal at line %s the stream stays registered (state %s) and %s '
+                            'signals the subscriber again at line %s' % (
+                                [e.line for k, e in sigs if k in TERMINAL][0], _st(post), again[0].name, again[1]))
+                else:
+                    rep.ok('C07.b', c3, en.func, 'no entry of the handler signals in state %s' % _st(post))
         if signalling:
             subjects += 1
     rep.require('C07.b', 'handler classes that signal a subscriber', subjects, 3)
